@@ -128,3 +128,83 @@ def c07_native_frames(tier="quick", seed=0):
             by[b][1] = (name, src, got, want)
     return [ob(f"C07.bounded.native-frames.{b}", bad is None, "B", f"{n} cases" if bad is None else f"{bad[0]}: got {bad[2]!r}, expected {bad[3]!r}",
                witness=(bad[1] if bad else None), confirmed=True if bad else None, domain=n) for b, (n, bad) in sorted(by.items())]
+
+
+# =======================================================================================================================
+# K1: VM._throw with a live handler -- for every handler stack, call stack and operand stack
+# =======================================================================================================================
+from pyvc.api import *      # noqa: E402
+
+
+@writes("list.items")
+def inv_throw_unwind(self, frame_idx):
+    """the unwinding loop only pops frames: the call stack is a prefix of what it was, not shorter than the handler's frame"""
+    frames0 = ghost_get("frames0", None)
+    n = len(self.call_stack)
+    return (frame_idx + 1 <= n and n <= len(frames0) and same_elements(self.call_stack, frames0[:n])
+            and heap_unchanged(loop_entry(), (self.call_stack, "list.items")))
+
+
+def c_throw_caught(vm: Obj("VM"), exc: JSPrim, hs: ValList, frames: ValList, target: Obj("CallFrame"), stack: ValList,
+                   fi: IntRange(0, 2 ** 20), ip: IntRange(0, 2 ** 16), sd: IntRange(0, 2 ** 20), native: ValList):
+    """throw with a handler installed: the INNERMOST handler (the last one pushed) is taken and removed, the frames above
+    its frame are dropped, the operands pushed since TRY_START are dropped, the thrown value is the only new operand and
+    control continues at the handler's catch address in the handler's frame; the other handlers are untouched"""
+    assume(fi < len(frames) and sd <= len(stack))
+    assume(same_ref(frames[fi], target))
+    # the four lists are separate objects (VM.__init__ creates each)
+    assume(not same_ref(frames, stack) and not same_ref(frames, hs) and not same_ref(stack, hs))
+    assume(not same_ref(native, frames) and not same_ref(native, stack) and not same_ref(native, hs))
+    vm.exception_handlers = hs
+    vm.exception_handlers.append((fi, ip, sd))
+    frames0, stack0, hs0 = frames[:], stack[:], hs[:len(hs) - 1]
+    vm.call_stack = frames
+    vm.stack = stack
+    vm._native_entry = []
+    ghost_set("frames0", frames0)
+    r = outcome(REAL, vm, exc)
+    check("handled-without-a-host-exception", r[0] == "ret")
+    check("innermost-handler-removed-others-kept", same_elements(vm.exception_handlers, hs0))
+    check("frames-above-the-handler-dropped", same_elements(vm.call_stack, frames0[:fi + 1]))
+    check("operands-since-TRY_START-dropped-value-pushed", same_elements(vm.stack, stack0[:sd] + [exc]))
+    check("continues-at-the-catch-address", target.ip == ip)
+
+
+def c_throw_caught_across_native(vm: Obj("VM"), exc: JSPrim, hs: ValList, frames: ValList, target: Obj("CallFrame"), stack: ValList,
+                                 fi: IntRange(0, 2 ** 20), ip: IntRange(0, 2 ** 16), sd: IntRange(0, 2 ** 20), native: ValList,
+                                 depth: IntRange(0, 2 ** 20)):
+    """the same with nested run loops active (built-ins calling back into script code): the state is unwound to the
+    handler exactly as above, and NativeUnwind is raised if and only if the handler's frame lies below the frame
+    that entered the innermost nested loop -- so the built-ins in between are abandoned and the handler, not they,
+    continues"""
+    assume(fi < len(frames) and sd <= len(stack))
+    assume(same_ref(frames[fi], target))
+    assume(not same_ref(frames, stack) and not same_ref(frames, hs) and not same_ref(stack, hs))
+    assume(not same_ref(native, frames) and not same_ref(native, stack) and not same_ref(native, hs))
+    vm.exception_handlers = hs
+    vm.exception_handlers.append((fi, ip, sd))
+    frames0, stack0, hs0 = frames[:], stack[:], hs[:len(hs) - 1]
+    vm.call_stack = frames
+    vm.stack = stack
+    vm._native_entry = native
+    vm._native_entry.append(depth)
+    native0 = native[:]
+    ghost_set("frames0", frames0)
+    r = outcome(REAL, vm, exc)
+    check("NativeUnwind-iff-handler-below-the-nested-loop", (exc_in(r, ("NativeUnwind",)) and fi < depth) or (r[0] == "ret" and fi >= depth))
+    check("innermost-handler-removed-others-kept", same_elements(vm.exception_handlers, hs0))
+    check("frames-above-the-handler-dropped", same_elements(vm.call_stack, frames0[:fi + 1]))
+    check("operands-since-TRY_START-dropped-value-pushed", same_elements(vm.stack, stack0[:sd] + [exc]))
+    check("continues-at-the-catch-address", target.ip == ip)
+    check("nested-loop-entries-untouched", same_elements(vm._native_entry, native0))
+
+
+def _native_throw():
+    from microjs.vm import VM
+    return VM._throw
+
+
+register(c_throw_caught, id="C07.VM._throw.caught", prop="C07", target=method("microjs.vm", "VM._throw"), native=None,
+         invariants={("microjs.vm:VM._throw", "len(self.call_stack) > frame_idx + 1"): inv_throw_unwind}, prim_args=False)
+register(c_throw_caught_across_native, id="C07.VM._throw.caught-across-native", prop="C07", target=method("microjs.vm", "VM._throw"), native=None,
+         invariants={("microjs.vm:VM._throw", "len(self.call_stack) > frame_idx + 1"): inv_throw_unwind}, prim_args=False)
